@@ -82,6 +82,9 @@ func (m *modSet) addPointee(t types.Type) {
 			m.addObject(u.Elem())
 		}
 	case *types.Slice:
+		if isStringType(u.Elem()) {
+			return // assumption: library callees do not write the elements of []string arguments
+		}
 		m.add(compDesc{kind: 'E', t: u.Elem()})
 	case *types.Map:
 		m.add(compDesc{kind: 'M', t: t})
